@@ -17,11 +17,27 @@ def _stale_forget_class(case, v):
 def run_modes(ctx, pid, modes, props_of_interest, rule, profile="release", known_class=None):
     """modes: list of (mode, [args]).  props_of_interest: oracle tags that count as violations
     of this property (others are ignored here: they belong to other checks)."""
-    bins = C.harness_build(ctx, "lib", ["lim"], profile=profile)
+    bins = C.harness_build(ctx, "lib", ["lim", "rate"], profile=profile)
     if not bins:
         return None
+    # failing-input search support: (count, period) pairs on which the library's emission interval
+    # differs from the exact quotient are forced into the history generators
+    forced = []
+    try:
+        rout = C.run_harness(ctx, bins["rate"], ["--seed", ctx.seed, "--random", 6000])
+        for l in rout.splitlines():
+            if '"k":"gen"' in l and '"oracle":"bad' in l:
+                c = json.loads(l)
+                if 1 <= c["count"] and 1 <= c["period"] <= 9000000 and c["period"] * 10**9 // c["count"] >= 1:
+                    forced.append("%d:%d" % (c["count"], c["period"]))
+    except Exception:
+        pass
+    forced = forced[:8]
+    ctx.coverage["rate_disagreements_forced_into_histories"] = forced
     all_cases = []
     for mode, args in modes:
+        if forced and mode in ("hist", "insert", "interleave", "regress", "reclaim"):
+            args = list(args) + ["--limits", ",".join(forced)]
         out = C.run_harness(ctx, bins["lim"], ["--mode", mode, "--seed", ctx.seed] + args)
         cases = [json.loads(l) for l in out.splitlines() if l.startswith("{")]
         all_cases += cases
